@@ -90,6 +90,13 @@ class Gen:
             if self.chance(0.5):
                 return [f"gtxn {i} GroupIndex", f"gtxns {field}"], ("abs", i)
             return [f"gtxn {i} GroupIndex"] + self.push_int(1) + ["+", f"gtxns {field}"], ("abs", i + 1)
+        if c < 0.91:
+            # index computed by an addition that does NOT involve the own GroupIndex (constant arithmetic, a scratch value):
+            # an absolute member, never a relative one
+            a, b = self.r.choice([0, 1]), self.r.choice([0, 1])
+            if self.chance(0.5):
+                return self.push_int(a) + self.push_int(b) + ["+", f"gtxns {field}"], ("abs", a + b)
+            return self.push_int(a) + ["load 0", "+", f"gtxns {field}"], ("abs", a)
         k = self.r.choice([1, 2, -1, -2]) if self.chance(0.9) else 0
         if k >= 0:
             if self.chance(0.5):
@@ -540,7 +547,9 @@ TWOFIELD_ADDR = [None, ("CloseRemainderTo", "global ZeroAddress", "=="), ("Asset
                  ("RekeyTo", "global ZeroAddress", "=="), ("Sender", "global CreatorAddress", "=="),
                  ("CloseRemainderTo", "global ZeroAddress", "!="), ("Sender", "global CreatorAddress", "!="),
                  ("CloseRemainderTo", "addr 6ZHGHH5Z5CTPCF5WCESXMGRSVK7QJETR63M3NY5FJCUYDHO57VTCMJOBGY", "==")]
-N_TWOFIELD = len(TWOFIELD_KINDS) * len(TWOFIELD_ADDR) * 2
+N_TWOFIELD = len(TWOFIELD_KINDS) * len(TWOFIELD_ADDR) * 2 * 3
+KIND_NUMBERS = {"pay": 1, "keyreg": 2, "acfg": 3, "axfer": 4, "afrz": 5, "appl": 6,
+                "NoOp": 0, "OptIn": 1, "CloseOut": 2, "ClearState": 3, "UpdateApplication": 4, "DeleteApplication": 5}
 
 def twofield(seed, index):
     """systematic family for the detector predicates that combine a transaction-kind check with an address check
@@ -549,13 +558,17 @@ def twofield(seed, index):
     kind = TWOFIELD_KINDS[index % len(TWOFIELD_KINDS)]
     addr = TWOFIELD_ADDR[(index // len(TWOFIELD_KINDS)) % len(TWOFIELD_ADDR)]
     negated = (index // (len(TWOFIELD_KINDS) * len(TWOFIELD_ADDR))) % 2 == 1
+    spelling = (index // (len(TWOFIELD_KINDS) * len(TWOFIELD_ADDR) * 2)) % 3   # named field-first / numeric field-first / numeric constant-first
     out = ["#pragma version 8"]
     if kind is not None:
         f, c = kind
-        if f == "OnCompletion":
+        if f == "OnCompletion" and ((index // len(TWOFIELD_KINDS)) % 2 == 1 or spelling == 1):
+            # with / without the transaction-kind prelude (OnCompletion alone already excludes update / delete)
             out += ["txn TypeEnum", "int appl", "==", "assert"]
-        if negated: out += [f"txn {f}", f"int {c}", "!=", "bnz bad"]
-        else: out += [f"txn {f}", f"int {c}", "==", "assert"]
+        lit = f"int {c}" if spelling == 0 else f"int {KIND_NUMBERS[c]}"
+        pair = [lit, f"txn {f}"] if spelling == 2 else [f"txn {f}", lit]
+        if negated: out += pair + ["!=", "bnz bad"]
+        else: out += pair + ["==", "assert"]
     if addr is not None:
         f, v, op = addr
         out += [f"txn {f}", v, op, "assert"]
